@@ -333,8 +333,8 @@ for _sc in range(4):
       defs=["-DGM_SCEN=%d" % _sc, "-Dh_u_genmerge_b=h_u_genmerge_b_%d" % _sc], mem=30, tiers=())
 
 # move on nested documents (incl. "moving a value into its own child", named by C16)
-for _sc in (0, 1, 2):
-    U("u_ap_nested_b_%d" % _sc, "both", "harness/u_ap_nested_b.c", no_contract=True, shape="B", bound="ONE concrete nested document and move operation (scenario %d, see harness); scenario 1 with a symbolic value" % _sc,
+for _sc in (0, 1, 2, 3, 4):
+    U("u_ap_nested_b_%d" % _sc, "both", "harness/u_ap_nested_b.c", no_contract=True, shape="B", bound="ONE concrete nested document and patch (scenario %d, see harness: moves across nesting levels, operations on array elements); scenarios 1 and 3 with a symbolic value" % _sc,
       funcs=_AP_F, props=["C16"], covers=1, unwind=8, unwindset=_AP_UW + ["mkstr.0:9", "healthy.0:6"], timeout=(600, 1800),
       defs=["-DAN_SCEN=%d" % _sc, "-Dh_u_ap_nested_b=h_u_ap_nested_b_%d" % _sc],
       note="status, ledger balance and tree health for move across nesting levels")
